@@ -305,7 +305,10 @@ impl Directive {
             Directive::If | Directive::ElIf => {
                 if let DirectiveOps::OpList(values) = &opts {
                     if let Operand::E(expr) = &values[0] {
-                        let value = expr.run(&context.common_context)?;
+                        let value = match expr.run(&context.common_context) {
+                            Ok(value) => value,
+                            Err(e) => bail!("{} in {}", e, point),
+                        };
                         if value == 0 {
                             next_item = NextItem::EndIf;
                         }
